@@ -10,6 +10,7 @@ Vocabulary (all defined in Model*.lean, which the driver executes against the Go
   `rootHash H t`   `Trie.Hash()` for an arbitrary hash function `H`
 -/
 import YouVerif.C13.ProofsApi
+import YouVerif.C13.ProofsIter
 import YouVerif.C13.ModelHash
 namespace YouVerif.C13
 
@@ -43,6 +44,30 @@ theorem run_determined_by_content (ops1 ops2 : List Op)
 theorem root_history_independent (H : Hash) (ops1 ops2 : List Op)
     (h : ∀ k, applyMap ops1 k = applyMap ops2 k) : rootHash H (run ops1) = rootHash H (run ops2) := by
   rw [run_determined_by_content ops1 ops2 h]
+
+/-! ### iteration (`leaves` = what `NewIterator(t.NodeIterator(nil))` yields, in that order) -/
+
+/-- Iteration returns exactly the surviving pairs … -/
+theorem iter_exact (ops : List Op) (k v : List UInt8) :
+    (hexKey k, v) ∈ leaves (run ops) ↔ applyMap ops k = some v := by
+  rw [mem_leaves, ← lookupB_eq_lookup (inv_run ops), get_after]
+
+/-- … and nothing else: every yielded path is the hex form of a byte key. -/
+theorem iter_only_keys (ops : List Op) (p : List Nib) (v : Val) (h : (p, v) ∈ leaves (run ops)) :
+    ∃ k, p = hexKey k :=
+  (inv_run ops).2 p (by rw [(mem_leaves _ p v).1 h]; simp)
+
+/-- Leaves come out strictly ascending in hex order (nibbles, terminator 16 last) — in particular
+without repetition — for every trie. -/
+theorem iter_sorted (t : Node) : (leaves t).Pairwise (fun a b => a.1 < b.1) := leaves_sorted t
+
+/-- … which is ascending byte-key order for any two yielded keys neither of which is a prefix of the
+other (so: ascending key order whenever no key is a prefix of another; a key that is a prefix of
+others comes after them, which is what the Go iterator does). -/
+theorem iter_ascending_keys (t : Node) :
+    (leaves t).Pairwise (fun a b => ∀ ka kb, a.1 = hexKey ka → b.1 = hexKey kb →
+      ¬ ka <+: kb → ¬ kb <+: ka → ka < kb) :=
+  (leaves_sorted t).imp (fun h ka kb ea eb h1 h2 => bytes_lt_of_hexKey_lt h1 h2 (by rw [← ea, ← eb]; exact h))
 
 /-! Non-vacuity (tests on literals): the hypotheses are met by concrete, non-trivial histories. -/
 
